@@ -281,6 +281,9 @@ def gen(shard, rng, tier):
         if shard.get("first"):
             todo += [("index", i) for i in (0, 1, 2**31 - 1, 2**31, 2**32 - 1, 2**32, 2**64 - 1)]
             todo += [("path", "m/%d'" % 2**31), ("path", "m/44'/60'/0'/0/%d" % 2**31), ("path", "m/0'"), ("path", "m//1"), ("path", "1/2")]
+            todo += [("path", t) for t in MALFORMED if t and "\x00" not in t]
+            todo += [("path", "m/44\u2019/60\u2019/0\u2019/0/1"), ("path", "m/44\u2032/60'/0'/0/1"), ("path", "m/44`/60'/0'/0/0"), ("path", "m/44h/60h/0h/0/0"),
+                     ("path", "m/44H/60H/0H/0/0"), ("path", "m\\44'\\60'"), ("path", "m/44'/60'/0'/0/1_0"), ("path", "M/44'/60'/0'/0/0")]
         for _ in range(shard["count"]):
             if rng.random() < 0.5:
                 todo.append(("index", rng.choice([0, 1, 7, 2**31 - 1, 2**31, 2**31 + 5, 2**32 - 1, 2**32, 2**40, 2**63, 2**64 - 1, rng.randrange(2**31)])))
